@@ -17,8 +17,8 @@ def clean_frames(n: int, stuffing: bool, abort: bool, seed: int, min_info=4, max
         while True:
             k = rnd.randint(min_info, max_info)
             info = bytes([0xE6, 0xE7, 0x00]) + f"{i:04d}".encode() + rnd.randbytes(k)
-            dest = bytes([rnd.choice([0x01, 0x03, 0x41])])
-            src = rnd.choice([b"\x01", b"\x02\x01", b"\x00\x02\x23"])
+            dest = rnd.choice([b"\x01", b"\x03", b"\x41", b"\x02\x04\x06\x09"])
+            src = rnd.choice([b"\x01", b"\x02\x01", b"\x00\x02\x23", b"\x10\x20\x40\x03"])
             if stuffing:
                 if rnd.random() < 0.5:
                     info += bytes(rnd.choice([FLAG, ESC, 0x5E, 0x5D]) for _ in range(3))
@@ -31,6 +31,13 @@ def clean_frames(n: int, stuffing: bool, abort: bool, seed: int, min_info=4, max
                 continue
             break
         out.append(fr)
+    if n >= 3:
+        # frames whose header check sequence is 00 00 (and contain no 7E): position 1 or 2, never the first
+        for k, spec in enumerate(GH.SPECIAL_SPECS[:2]):
+            fr = GH.frame_from_spec(spec)  # (the information field must stay as searched: the length is part of the header)
+            if stuffing or (FLAG not in fr and not (abort and fr[-1] == ESC)):
+                out[1 + (seed + k) % (n - 1)] = fr
+                break
     return out
 
 
